@@ -53,6 +53,7 @@ def run(ctx, config='rel-all'):
     A = arena.analyse(ctx, config)
     ctx.assume("A1 no overflow of allocated_bytes + n (both bounded by the address space)", "C08.O1: the counter equals the usable bytes held (J4)",
                "constructors run before any limit can be set (the arena does not exist yet)")
+    check_acquirer_callers(ctx, db)
     n_sites = 0
     for key in ENTRIES:
         val = A.get(key)
@@ -187,3 +188,55 @@ def run(ctx, config='rel-all'):
         ctx.anchor_missing('R6', 'Bump::allocation_limit')
 
 
+
+
+
+def check_acquirer_callers(ctx, db):
+    """R11 (requirement side: also for methods that did not exist when the entry list was written): the function that obtains a chunk
+    from the global allocator is called only (a) by constructors - functions without a `self` parameter, which run before a limit can
+    have been set - and (b) from the slow path of the allocation entry points, where R1 proves the limit test at every acquisition.
+    Any other function that reaches the acquirer (a new `reset_and_coalesce`, a `reserve_chunk`) acquires memory the limit never saw."""
+    from . import c01
+    acq = {f for f, _ in c01.global_alloc_callers_raw(db).get('alloc', [])}
+    n = 0
+    for a in sorted(acq):
+        ab = db.bodies.get(a)
+        path = (ab['meta'].get('path') if ab else None) or a
+        sites = db.callers_of(path) + [x for x in db.callers_of(a) if x not in db.callers_of(path)]
+        for cb, bi, t in sites:
+            n += 1
+            top = cb
+            # a closure belongs to the function that creates it
+            while top['kind'] == 'closure':
+                pf = top['meta'].get('parent_fn')
+                cand = [x for x in db.fn_bodies() if x['kind'] != 'closure' and x['meta'].get('path') == pf]
+                if not cand:
+                    break
+                top = cand[0]
+            m = top['meta']
+            ins = m.get('inputs') or []
+            has_self = bool(ins) and ('Bump<' in ins[0] or ins[0].endswith('Bump'))
+            fn = arena.short(top['id'])
+            callers_of_top = set()
+            frontier = [top]
+            for _ in range(4):      # private helpers between the entry points and the acquiring call (extract-method refactorings)
+                nxt = []
+                for fb in frontier:
+                    for c2, _, _ in db.callers_of(fb['meta'].get('path') or fb['id']):
+                        while c2['kind'] == 'closure':
+                            cand = [x for x in db.fn_bodies() if x['kind'] != 'closure' and x['meta'].get('path') == c2['meta'].get('parent_fn')]
+                            if not cand:
+                                break
+                            c2 = cand[0]
+                        if c2['id'] not in callers_of_top:
+                            callers_of_top.add(c2['id'])
+                            if not c2['meta'].get('pub'):
+                                nxt.append(c2)
+                frontier = nxt
+            if not has_self:
+                ctx.ok('R11', '%s acquires a chunk as a constructor (no arena exists yet, no limit can be set)' % fn, 'no self parameter')
+            elif any(e.split('::')[-1] in ('try_alloc_layout', 'alloc_layout') or 'try_alloc_layout' in e for e in callers_of_top) and not m.get('pub'):
+                ctx.ok('R11', '%s acquires chunks as the slow path of the allocation entry points (limit test proved by R1)' % fn, 'private, called from try_alloc_layout / alloc_layout')
+            else:
+                ctx.violation('R11', fn, 'acquire-outside-slow-path', '%s calls the chunk-acquiring function %s but is neither a constructor nor the private slow path of try_alloc_layout: the allocation limit is not known to be tested before this acquisition' % (fn, arena.short(a)), t.get('span'))
+    ctx.floor('R11', n, 2, 'call sites of the chunk-acquiring function')
